@@ -229,6 +229,7 @@ type e3Scenario struct {
 	Twin       bool // two overlapping calls on one Runtime
 	OneField   bool // all files under one form field name
 	Debug      bool // Runtime.Debug: request and response are dumped to the logger
+	WithClient bool // the Runtime is built around an existing http.Client (NewWithClient), reuse enabled afterwards
 }
 
 type quietLogger struct{}
@@ -251,6 +252,7 @@ func e3Scenarios() []e3Scenario {
 		{Name: "readcloser-payload", Payload: "readcloser", Reuse: true},
 		{Name: "json-payload-cancelled", Payload: "json", Canceller: true},
 		{Name: "json-payload-debug-reuse", Payload: "json", Debug: true, Reuse: true},
+		{Name: "json-payload-reuse-enabled-on-existing-client", Payload: "json", Reuse: true, WithClient: true},
 		{Name: "two-overlapping-uploads", Fields: true, Files: 1, Twin: true, NoSrcFault: true},
 		{Name: "two-overlapping-uploads-reuse-faults", Files: 1, Twin: true, Reuse: true},
 	}
@@ -318,6 +320,9 @@ func (w *e3World) body() {
 		basePath = "/base%zz" // does not parse as a URL
 	}
 	rt := client.New("example.test", basePath, []string{"http"})
+	if sc.WithClient {
+		rt = client.NewWithClient("example.test", basePath, []string{"http"}, &http.Client{Transport: w.tr})
+	}
 	rt.Transport = w.tr
 	if sc.Debug {
 		// (only with a buffered payload: the dump reads the request body on a goroutine of net/http/httputil)
